@@ -569,6 +569,10 @@ class Executor(object):
     def contains(self, container, item, st, fr):
         if isinstance(container, VT) and container.t.sort == STR and isinstance(item, VT) and item.t.sort == STR:
             return [(st, "ok", VT(tm.contains(container.t, item.t)))]
+        if isinstance(container, VDict) and st.get(container, "arr") is not None:
+            from . import models_moclo as _mm
+            kt = self.models.text(st, item)
+            return [(st, "ok", VT(tm.ne(tm.select(st.get(container, "arr").t, kt), _mm.ABSENT)))]
         if isinstance(container, VDict):
             items = st.get(container, "items")
             if isinstance(item, VT) and item.t.sort == STR:
@@ -751,7 +755,12 @@ class Executor(object):
                         return [(st, "ok", VTuple(items[sl]))]
                     st, l2 = self.new_list(st, items[sl])
                     return [(st, "ok", l2)]
-        if isinstance(v, VDict) and (st.get(v, "arr") is not None or isinstance(idx, VObj)):
+        if isinstance(v, VDict) and (st.get(v, "arr") is not None or isinstance(idx, VObj)
+                                     or (isinstance(idx, VT) and idx.t.sort == STR and not tm.is_const(idx.t)
+                                         and not st.get(v, "items"))):
+            if isinstance(idx, VT):
+                st = st.fork()
+                idx = self.models.mk_seq(st, idx.t)
             m = self.models.value_method(self, st, v, "get")
             from . import models_moclo as _mm
             return _mm._wrap_dict_method("__getitem__", None)(self, st, fr, v, [idx], {})
@@ -1210,6 +1219,8 @@ class Executor(object):
                         nxt.append((s2, tag2, cm))
                     elif not (isinstance(cm, VObj) and cm.kind == "ctx:transparent"):
                         raise Unsupported("with-statement over %r" % (cm,))
+                    elif item.optional_vars is not None:
+                        nxt.extend(self.assign(item.optional_vars, cm, s2, fr))
                     else:
                         nxt.append((s2, "ok", None))
             outs = nxt
